@@ -6,7 +6,7 @@ from .common import bump
 ID = "C07"
 AREA = "c07"
 LEAN_PROPS = "Litep2pVerif.Props.C07"
-THEOREMS = ["exit_reports_closed_once", "tcploop_exit_reports_closed_once", "protocols_before_manager", "live_protocols_all_told",
+THEOREMS = ["exit_reports_closed_once", "close_report_waits_for_busy_protocol", "protocols_before_manager", "live_protocols_all_told",
             "app_closed_iff_last", "established_survives_dead_protocol", "loop_usable_after_protocol_exit",
             "accept_established_then_closed", "redial_after_close"]
 MANIFEST = {
@@ -25,7 +25,11 @@ MANIFEST = {
             "and their negotiation, protocol handles, commands, receivers) against the permit-aware loop model "
             "Model/Conn/Permits.lean in checker mode (every order of the branches select! may take), incl. the no-permit exit "
             "and its race with the idle exit repeated over fresh connections; protocol/manager channels held FULL over real time "
-            "while the connection ends (6 s against hard-coded bounds, 1.5 s with the configurable timeouts made small) and "
+            "while the connection ends (6 s against hard-coded bounds — ONE hold PER EXIT PATH of the loop in every quick run: "
+            "remote close, go-away, ForceClose by another protocol, all handles released / its race with the no-permit exit, the "
+            "error path of start() after a report to a protocol that shut down, plus two with the manager busy; 1.5 s with the "
+            "configurable timeouts made small; theorem close_report_waits_for_busy_protocol: from every exit path the loop is "
+            "suspended in exactly that report and NO transition but a move of the other end of a channel changes it) and "
             "the REAL future of TcpTransport::accept driven with a full channel (model Model/Conn/Accept.lean; theorem "
             "accept_established_then_closed: the future never resolves Err, so an accept is never abandoned after some "
             "protocols were told, nothing is reported closed before the loop exists, and whoever was told established is "
@@ -37,8 +41,8 @@ MANIFEST = {
             "suspended sender, closed on receiver drop) as modelled; yamux, multistream-select and TCP outside the model; "
             "only the TCP transport's loop is modelled. Real time in the tcploop area: the model has no clock — on the code as "
             "modelled the passage of time enables nothing but negotiation timeouts (sot=), which are may-transitions; a "
-            "time-bounded report shorter than the holds used (1.5 s from configuration, 6 s hard-coded) is detected, a longer "
-            "hard-coded bound is not.",
+            "time-bounded report shorter than the holds used (1.5 s from configuration, 6 s hard-coded) is detected on whichever "
+            "exit path it sits (the long hold rotates over all of them), a longer hard-coded bound is not.",
     "technique": "Lean 4 proof (invariant over a small-step LTS of the connection task and its channels) + "
                  "model/implementation correspondence (component-in-a-box and real loopback nodes)",
     "design_ref": "DESIGN.md §7 C07, §8 (h)(i)",
@@ -53,7 +57,10 @@ RULE = ("S1: operation sequences on the real ProtocolSet (<=3 protocols, channel
         "model allows; plus channel capacities 1-3, fill/pause/resume of protocols and the manager, real-time holds (sleep), "
         "connections accepted through the real TcpTransport::accept with full/paused/dead receivers, half-closed substreams, "
         "bursts of open requests beyond the yamux ACK backlog against a stalling remote followed by every close cause (the "
-        "connection must still notice a remote close afterwards), fallback names. "
+        "connection must still notice a remote close afterwards), fallback names; f-round: seven 6 s holds per quick run "
+        "(exit path rotating: remote_close, remote_goaway, force_close, idle(+race), error; busy protocol x5, busy manager "
+        "x2, run in parallel shards), family `order` (a substream finishing negotiation against a full channel, then every "
+        "exit path in the same poll or a later one, then drain). "
         "A case is non-trivial if a report call was made with "
         "a dead or full receiver, or it is a conclusive S2 scenario; distinct = distinct (ops, observations) by SHA-256")
 TRUSTED_BASE = ["Lean 4.33 kernel", "axioms: propext, Classical.choice, Quot.sound only",
